@@ -227,22 +227,53 @@ def run_circuit(ctx, case):
     # make sure the circuit spans n wires
     circ.single_qubit_gate(np.eye(2), n - 1)
     d = case.get('shift', 0)
+    case0 = case
+    dshift = 0
+    Pall_any = any(isinstance(getattr(g_, 'args', None), nq.sim._internal._ParameterHolder) for g_, _ in circ.gate_index_list)
     has_custom_forward = any(getattr(g, 'kind', '') == 'custom' for g, _ in circ.gate_index_list)
     if d and not has_custom_forward and n + d <= 6:
+        dshift = d
         circ.shift_qubit_index_(d)
         segs = [np.kron(np.eye(2 ** d), U) for U in segs]
         case = dict(case, m1=[q + d for q in case['m1']], m2=[q + d for q in case['m2']])
         n = n + d
         ctx.label('shifted')
     psi = make_state(r, n, case['state'])
-    for rep in range(2):  # the recorded values must refer to the state of *this* run on every apply_state call
+    for rep in range(3):  # the recorded values must refer to the state of *this* run on every apply_state call
         if rep == 1:
             psi = make_state(r, n, 'haar')
+        if rep == 2:
+            # the SAME input (byte for byte) after the parametrised gates of the circuit were re-parametrised through set_args: everything refers to the new circuit
+            import copy
+            delta = 0.31
+            seen = set()
+            for g_, _ in circ.gate_index_list:
+                if isinstance(g_, nq.sim.ParameterGate) and id(g_) not in seen and getattr(g_, 'kind', '') != 'custom' and not isinstance(g_.args, nq.sim._internal._ParameterHolder):
+                    seen.add(id(g_))
+                    g_.set_args(tuple(float(x) + delta for x in g_.args))
+            if not seen or Pall_any:
+                break  # nothing to re-parametrise, or placeholder gates present (their values live in the sub-circuits' P)
+
+            def bump(ops):
+                for o in ops:
+                    if o['op'] == 'sub':
+                        bump(o['ops'])
+                    elif 'args' in o:
+                        o['args'] = [x + delta for x in o['args']]
+            segs = []
+            for name in ('pre', 'mid', 'post'):
+                ops2 = copy.deepcopy(case0[name])
+                bump(ops2)
+                U_ = _segment(ops2, n - dshift)[1]
+                segs.append(np.kron(np.eye(2 ** dshift), U_) if dshift else U_)
+            ctx.label('same input after set_args')
         out = circ.apply_state(psi.copy())
         f = _tolf(psi)
         s1 = segs[0] @ psi
         p1 = ref.born_marginal(s1, n, case['m1'])
         ctx.close(g1.probability, p1, 1e-10 * f, 'recorded probabilities refer to the state at that point of the circuit (first measurement)')
+        ctx.require(len(g1.bitstr) == len(case['m1']) and all(int(b) in (0, 1) for b in g1.bitstr) and len(g2.bitstr) == len(case['m2']) and all(int(b) in (0, 1) for b in g2.bitstr),
+                    'recorded bit strings have one bit per measured qubit', f'{g1.bitstr} {g2.bitstr}')
         o1 = int(''.join(str(int(b)) for b in g1.bitstr), 2)
         ctx.require(p1[o1] > 1e-14, 'recorded outcome has non-zero probability')
         s1p = ref.project_outcome(s1, n, case['m1'], g1.bitstr) / np.sqrt(p1[o1])
